@@ -599,12 +599,14 @@ def halley(prog, ctx):
     # substitute the named pre-loop constants
     okstep = False
     got = None
+    per_path = []
     for pth in live:
         xo = pth.env.get(kx)
         step = sp.simplify(x - xo)
         if step.has(sp.Rational(1, 2) * x) or sp.simplify(xo - x / 2) == 0:
             continue
         got = step
+        per_path.append([pth, False, step])
         m1 = [t for t in step.atoms(sp.Min)]
         m2 = [t for t in want.atoms(sp.Min)]
         if len(m1) == 1 and len(m2) == 1:
@@ -615,7 +617,12 @@ def halley(prog, ctx):
                 d_arg = sp.simplify(sp.expand_log(sp.simplify(a1[0] - a2[0]), force=True))
                 d_out = sp.simplify(sp.expand_log(sp.simplify(step.subs(m1[0], MM) - want.subs(m2[0], MM)), force=True))
                 if d_arg == 0 and d_out == 0:
-                    okstep = True
+                    per_path[-1][1] = True
+    # every branch of the iteration body (a > 1 and a <= 1 compute the density differently) must take the Halley step
+    okstep = bool(per_path) and all(ok_ for _, ok_, _ in per_path)
+    badp_ = [(pp_, st_) for pp_, ok_, st_ in per_path if not ok_]
+    if badp_:
+        got = 'under [%s]: %s' % (' & '.join(str(c_) for c_ in badp_[0][0].conds[n0:])[:120], badp_[0][1])
     ctx.decide(R, 'Inv_GammaP:halley-step', fn, okstep, 'x -= u/(1-min(1,u((a-1)/x-1))/2), u=(P(x,a)-p)/(x^(a-1)e^-x/Gamma(a))',
                'iteration step is not the Halley step: %s' % str(got)[:300], line=loop['l'], form=str(got)[:400])
 
